@@ -184,29 +184,36 @@ class UHSEnumerator(ProgramEnumerator[None], ABC, Generic[U, V, W]):
                         self.heaps[S],
                         HeapElement(priority, program),
                     )
-                    if S in self.G.starts:
-                        heappush(
-                            self._start_heap,
-                            StartHeapElement(
-                                self.adjust_priority_for_start(priority, S), program, S
-                            ),
-                        )
 
         # 3) Do the 1st query
         self.query(S, None)
 
+    def __push_next_from_start__(
+        self, start: Tuple[Type, U], program: Optional[Program]
+    ) -> None:
+        # the start heap only holds, for each start symbol, the successor of the
+        # last program taken from it, so that query is never asked for the
+        # successor of a program that was not yet generated from that start symbol
+        succ = self.query(start, program)
+        if succ is not None:
+            priority = self.compute_priority(start, succ)
+            heappush(
+                self._start_heap,
+                StartHeapElement(
+                    self.adjust_priority_for_start(priority, start), succ, start
+                ),
+            )
+
     def start_query(self) -> Optional[Program]:
         if len(self._init) == 0:
             for start in self.G.starts:
-                self.query(start, None)
-        if len(self._start_heap) == 0:
-            return None
-        elem = heappop(self._start_heap)
-        self.query(elem.start, elem.program)
-        while elem.program in self.deleted:
+                self.__push_next_from_start__(start, None)
+        while len(self._start_heap) > 0:
             elem = heappop(self._start_heap)
-            self.query(elem.start, elem.program)
-        return elem.program
+            self.__push_next_from_start__(elem.start, elem.program)
+            if elem.program not in self.deleted:
+                return elem.program
+        return None
 
     def __add_successors_to_heap__(
         self,
@@ -241,15 +248,6 @@ class UHSEnumerator(ProgramEnumerator[None], ABC, Generic[U, V, W]):
                         priority: Ordered = self.compute_priority(S, new_program)
                         if not self.threshold or priority < self.threshold:
                             heappush(self.heaps[S], HeapElement(priority, new_program))
-                            if S in self.G.starts:
-                                heappush(
-                                    self._start_heap,
-                                    StartHeapElement(
-                                        self.adjust_priority_for_start(priority, S),
-                                        new_program,
-                                        S,
-                                    ),
-                                )
                 return True
         return False
 
@@ -395,7 +393,10 @@ class BucketSearch(UHSEnumerator[U, V, W]):
     def adjust_priority_for_start(
         self, priority: Ordered, start: Tuple[Type, U]
     ) -> Ordered:
-        return priority.add_prob_uniform(self.G.start_tags[start])  # type: ignore
+        # priority is the object stored in the heap of start: do not mutate it
+        return priority + Bucket(self.bucket_size).add_prob_uniform(  # type: ignore
+            self.G.start_tags[start]
+        )
 
     def __prob__(
         self, succ: Function, S: Tuple[Type, U], Si: Tuple[Type, U], info: W, i: int
